@@ -264,9 +264,14 @@ func main() {
 			rs = append(rs, rsaScen{L: l, K: k, Pick: mixed})
 		}
 	}
-	key, err := rsa.GenerateKey(vlib.SeededReader{R: rng}, *bits)
-	if err != nil {
-		vlib.Die("rsa.GenerateKey: %v", err)
+	// moduli whose bit length is and is not a multiple of 8 (8j, 8j+1, 8j+7): the encoded-message length of PSS is ceil((bits-1)/8)
+	var keys []*rsa.PrivateKey
+	for _, nb := range []int{*bits, *bits + 1, *bits + 7} {
+		k, err := rsa.GenerateKey(vlib.SeededReader{R: rng}, nb)
+		if err != nil {
+			vlib.Die("rsa.GenerateKey: %v", err)
+		}
+		keys = append(keys, k)
 	}
 	type dealKey struct {
 		l, k  int
@@ -282,7 +287,8 @@ func main() {
 		sem <- struct{}{}
 		go func() {
 			defer func() { <-sem; wg.Done() }()
-			ln := rsaLine{Ev: "rsa", L: sc.L, K: sc.K, Pick: sc.Pick, Bits: *bits, Cache: si%2 == 0, Blind: si%3 == 0, Order: "sorted"}
+			key := keys[si%3]
+			ln := rsaLine{Ev: "rsa", L: sc.L, K: sc.K, Pick: sc.Pick, Bits: key.N.BitLen(), Cache: si%2 == 0, Blind: si%3 == 0, Order: "sorted"}
 			shares, err := trsa.Deal(vlib.SeededReader{R: lr}, uint(sc.L), uint(sc.K), key, ln.Cache)
 			if err != nil {
 				ln.Result = "deal-error"
@@ -370,7 +376,7 @@ func main() {
 				for i := range parts {
 					before[i], _ = parts[i].MarshalBinary()
 				}
-				again := rsaLine{Ev: "rsa", L: sc.L, K: sc.K, Pick: pick, Bits: *bits, Cache: ln.Cache, Blind: ln.Blind, Order: "reused", Pad: ln.Pad}
+				again := rsaLine{Ev: "rsa", L: sc.L, K: sc.K, Pick: pick, Bits: key.N.BitLen(), Cache: ln.Cache, Blind: ln.Blind, Order: "reused", Pad: ln.Pad}
 				var extra int
 				for c := 1; c <= sc.L; c++ {
 					used := false
